@@ -83,7 +83,7 @@ theorem lastParams_eq_paramsOf (cls : Cls) : ∀ (ch : Chain), (classes ch).Nodu
 
 /-- **normal form of the constructor** on chains with distinct classes: the new wrapper on top, with the
 parameters of the wrapper of its class that it replaces (updated), and that wrapper cut out -/
-theorem mk_chain (cls : Cls) (kwargs : PDict) (fn : Fn) (h : (classes fn.chain).Nodup) :
+theorem mk_chain (cls : Cls) (kwargs : PDict) (fn : WFn) (h : (classes fn.chain).Nodup) :
     (mk cls kwargs fn).chain = (cls, newParams cls kwargs fn.chain) :: stripAll cls fn.chain := by
   unfold mk newParams
   cases hc : fn.chain with
@@ -116,22 +116,22 @@ theorem mk_chain (cls : Cls) (kwargs : PDict) (fn : Fn) (h : (classes fn.chain).
       rw [hp, hs, lastParams_eq_paramsOf cls rest h.2]
       cases paramsOf cls rest <;> rfl
 
-theorem mk_base (cls : Cls) (kwargs : PDict) (fn : Fn) : (mk cls kwargs fn).base = fn.base := rfl
+theorem mk_base (cls : Cls) (kwargs : PDict) (fn : WFn) : (mk cls kwargs fn).base = fn.base := rfl
 
-theorem mk_nodup (cls : Cls) (kwargs : PDict) (fn : Fn) (h : (classes fn.chain).Nodup) :
+theorem mk_nodup (cls : Cls) (kwargs : PDict) (fn : WFn) (h : (classes fn.chain).Nodup) :
     (classes (mk cls kwargs fn).chain).Nodup := by
   rw [mk_chain cls kwargs fn h]
   simp only [classes, List.map_cons, List.nodup_cons]
   exact ⟨not_mem_classes_stripAll cls fn.chain, nodup_stripAll cls fn.chain h⟩
 
-theorem mkMany_nodup (ds : Chain) (fn : Fn) (h : (classes fn.chain).Nodup) :
+theorem mkMany_nodup (ds : Chain) (fn : WFn) (h : (classes fn.chain).Nodup) :
     (classes (mkMany ds fn).chain).Nodup := by
   unfold mkMany
   induction ds generalizing fn with
   | nil => exact h
   | cons d ds ih => exact ih _ (mk_nodup d.1 d.2 fn h)
 
-theorem mkMany_base (ds : Chain) (fn : Fn) : (mkMany ds fn).base = fn.base := by
+theorem mkMany_base (ds : Chain) (fn : WFn) : (mkMany ds fn).base = fn.base := by
   unfold mkMany
   induction ds generalizing fn with
   | nil => rfl
@@ -154,14 +154,14 @@ theorem paramsOf_stripAll_ne (cls d : Cls) (hd : d ≠ cls) : ∀ ch : Chain, pa
         · simp only; exact ih
         · rfl
 
-theorem paramsOf_mk_ne (cls d : Cls) (hd : d ≠ cls) (kd : PDict) (fn : Fn) (h : (classes fn.chain).Nodup) :
+theorem paramsOf_mk_ne (cls d : Cls) (hd : d ≠ cls) (kd : PDict) (fn : WFn) (h : (classes fn.chain).Nodup) :
     paramsOf cls (mk d kd fn).chain = paramsOf cls fn.chain := by
   rw [mk_chain d kd fn h]
   have h2 : (d == cls) = false := by simpa using hd
   simp only [paramsOf, List.find?, h2]
   exact paramsOf_stripAll_ne cls d hd fn.chain
 
-theorem stripAll_mk_ne (cls d : Cls) (hd : d ≠ cls) (kd : PDict) (fn : Fn) (h : (classes fn.chain).Nodup) :
+theorem stripAll_mk_ne (cls d : Cls) (hd : d ≠ cls) (kd : PDict) (fn : WFn) (h : (classes fn.chain).Nodup) :
     stripAll cls (mk d kd fn).chain = (mk d kd { fn with chain := stripAll cls fn.chain }).chain := by
   rw [mk_chain d kd fn h, mk_chain d kd _ (nodup_stripAll cls fn.chain h)]
   have hb : (d != cls) = true := by simpa using hd
@@ -172,7 +172,7 @@ theorem stripAll_mk_ne (cls d : Cls) (hd : d ≠ cls) (kd : PDict) (fn : Fn) (h 
     rw [this]
   · exact stripAll_comm cls d fn.chain
 
-theorem paramsOf_mkMany_ne (cls : Cls) (ds : Chain) (hds : ∀ d ∈ ds, d.1 ≠ cls) (fn : Fn)
+theorem paramsOf_mkMany_ne (cls : Cls) (ds : Chain) (hds : ∀ d ∈ ds, d.1 ≠ cls) (fn : WFn)
     (h : (classes fn.chain).Nodup) : paramsOf cls (mkMany ds fn).chain = paramsOf cls fn.chain := by
   unfold mkMany
   induction ds generalizing fn with
@@ -182,7 +182,7 @@ theorem paramsOf_mkMany_ne (cls : Cls) (ds : Chain) (hds : ∀ d ∈ ds, d.1 ≠
     rw [ih (fun x hx => hds x (by simp [hx])) _ (mk_nodup d.1 d.2 fn h)]
     exact paramsOf_mk_ne cls d.1 (hds d (by simp)) d.2 fn h
 
-theorem stripAll_mkMany_ne (cls : Cls) (ds : Chain) (hds : ∀ d ∈ ds, d.1 ≠ cls) (fn : Fn)
+theorem stripAll_mkMany_ne (cls : Cls) (ds : Chain) (hds : ∀ d ∈ ds, d.1 ≠ cls) (fn : WFn)
     (h : (classes fn.chain).Nodup) :
     stripAll cls (mkMany ds fn).chain = (mkMany ds { fn with chain := stripAll cls fn.chain }).chain := by
   unfold mkMany
